@@ -3,7 +3,7 @@ from __future__ import annotations
 
 import random
 
-from .. import bootstrap, gen, interp, model, multi
+from .. import bootstrap, exprs, gen, interp, model, multi
 from ..common import exc_str, names_rows, short
 from ..dbx import DB, BuildFailure, Builder, VProcessor, make_engines
 from ..fingerprint import fingerprint, safe_hash
@@ -27,15 +27,20 @@ RULE = (
     "= history with >= 10 effective steps; distinct = multiset of step kinds x pool size bucket."
     "  Binary steps include Join objects with explicit max_columns applied directly or through Join.partial(fixed, "
     "is_lhs) - also across engines, and (directed) onto a projection of a transfer with a fixed operand ending in "
-    "a calculation; leaves may hold lazily chained payloads, whose content is fingerprinted by iterating them. "
+    "a calculation; leaves may hold lazily chained payloads, whose content is fingerprinted by iterating them.  "
+    "A quarter of the numeric literals are floats / bools equal to the integer drawn, and 'lookalike' steps rebuild a "
+    "pool member with its literals replaced by equal values of another type (relations that compare equal without "
+    "meaning the same); rows are compared type-sensitively, every later execution of a member must repeat its first, "
+    "and at the end up to 8 executed members are rebuilt and executed on their own (fresh engines, expression objects "
+    "and database): the rows must be those seen in the middle of the history. "
 )
 ASSUMPTIONS = [
     "materializations and leaves are explicitly named (auto-generated names are unique per call by design)",
     "fingerprints observe public attributes only; Materialization payload attachment is C10's subject and excluded",
 ]
-MIN_OBS = {"steps_executed": 5000, "fingerprint_sweeps": 5000, "rebuild_comparisons": 300, "double_compilations": 300, "double_executions": 300, "hash_checks": 3000}
+MIN_OBS = {"steps_executed": 5000, "lookalikes_built": 300, "isolation_replays": 1000, "fingerprint_sweeps": 5000, "rebuild_comparisons": 300, "double_compilations": 300, "double_executions": 300, "hash_checks": 3000}
 CASE_TIMEOUT = 180
-STEP_KINDS = ["factory", "factory", "factory", "binary", "compile", "execute", "process", "diagnose"]
+STEP_KINDS = ["factory", "factory", "factory", "binary", "compile", "execute", "execute", "process", "diagnose", "lookalike"]
 
 
 def budget(tier):
@@ -61,6 +66,9 @@ def run_case(case):
     c = out["counters"]
     rng = random.Random(case["seed"])
     db = DB(shim=True)
+    # 25 % of the numeric literals are floats / bools equal to the integer drawn: expressions that
+    # compare and hash equal without being the same (see the "lookalike" step)
+    exprs.LIT_KINDS = 0.25
     try:
         engines = make_engines(c03.ENG)
         b = Builder(case["leaves"], engines, db)
@@ -111,6 +119,20 @@ def run_case(case):
                     what = model.show(prog)
                     rel = b.build(prog)
                     add(prog, rel, {t.qualified_name for t in rel.columns}, str(rel.engine))
+                elif kind == "lookalike":
+                    # the same call sequence with literals replaced by equal values of another type:
+                    # a relation that compares equal to an existing one but must keep its own meaning
+                    prog = exprs.reflavour(ent["prog"], rng)
+                    if repr(prog) == repr(ent["prog"]):
+                        continue
+                    what = "look-alike " + model.show(prog)
+                    rel = b.build(prog)
+                    add(prog, rel, {t.qualified_name for t in rel.columns}, str(rel.engine))
+                    c["lookalikes_built"] = c.get("lookalikes_built", 0) + 1
+                    if rng.random() < 0.7:
+                        ent = pool[-1]
+                        r1, _, _ = multi.evaluate(ent["rel"], db)
+                        ent.setdefault("rows", tcanon(r1))
                 elif kind == "binary":
                     other = rng.choice(pool)
                     if rng.random() < 0.5 and ent["cols"] == other["cols"] and ent["eng"] == other["eng"]:
@@ -161,8 +183,13 @@ def run_case(case):
                         deterministic = True
                     except (model.Skip, model.ModelError):
                         deterministic = False
-                    if deterministic and model.canon(r1) != model.canon(r2):
+                    if deterministic and tcanon(r1) != tcanon(r2):
                         out["violations"].append({"kind": "repeated_execution_differs", "detail": f"{what}: {short(r1, 200)} vs {short(r2, 200)}"})
+                    if deterministic:
+                        if "rows" in ent and ent["rows"] != tcanon(r1):
+                            out["violations"].append({"kind": "later_execution_differs_from_first", "detail": f"{what}: {short(r1, 200)} vs first {short(ent['rows'], 200)}"})
+                        ent.setdefault("rows", tcanon(r1))
+                        ent["deterministic"] = True
                 elif kind == "process":
                     VProcessor(db).process(ent["rel"])
                 elif kind == "diagnose":
@@ -201,6 +228,24 @@ def run_case(case):
                 out["violations"].append({"kind": "rebuilt_relation_not_equal", "detail": f"{model.show(ent['prog'])}: {short(again, 200)} vs {short(ent['rel'], 200)}"})
             elif safe_hash(again) != safe_hash(ent["rel"]):
                 out["violations"].append({"kind": "rebuilt_relation_hash_differs", "detail": model.show(ent["prog"])})
+        # ---- isolation replay: what a relation yielded in the middle of the history must be what the
+        # same call sequence yields on its own (fresh engines, fresh expression objects, fresh database)
+        executed = [ent for ent in pool if ent.get("deterministic") and "rows" in ent]
+        if executed:
+            db2 = DB(shim=True)
+            try:
+                for ent in rng.sample(executed, min(len(executed), 8)):
+                    try:
+                        b3 = Builder(case["leaves"], make_engines(c03.ENG), db2)
+                        alone, _, _ = multi.evaluate(b3.build(ent["prog"]), db2)
+                    except Exception:  # noqa: BLE001 - construction / processing failures are judged elsewhere
+                        c["isolation_replay_failed"] = c.get("isolation_replay_failed", 0) + 1
+                        continue
+                    c["isolation_replays"] = c.get("isolation_replays", 0) + 1
+                    if tcanon(alone) != ent["rows"]:
+                        out["violations"].append({"kind": "rows_in_history_differ_from_rows_in_isolation", "detail": f"{model.show(ent['prog'])}: in the history {short(ent['rows'], 250)}, on its own {short(tcanon(alone), 250)}"})
+            finally:
+                db2.close()
         for bad in b.sweep_expressions()[:2]:
             out["violations"].append({"kind": "expression_required_columns_changed_during_history", "detail": bad})
         c["expression_objects_swept"] = c.get("expression_objects_swept", 0) + len(b.expr_cache)
@@ -212,6 +257,11 @@ def run_case(case):
         return out
     finally:
         db.close()
+
+
+def tcanon(rows):
+    """Type-sensitive canonical multiset of rows (1, 1.0 and True are different values)."""
+    return sorted(repr(sorted((k, type(v).__name__, repr(v)) for k, v in r.items())) for r in rows)
 
 
 def strip_opts(prog):
